@@ -219,15 +219,86 @@ type Root struct {
 	V    interface{}
 }
 
-// Hash digests the roots.
+// Hash digests the roots. A root that is plain JSON data (nil, bool, float64, string, []interface{},
+// map[string]interface{}, nothing else, at most 200 levels) is digested by a type-switch walker without
+// reflection (the write monitors hash documents at every statement); any other root by the reflective
+// walker. Which walker is used is a function of the value alone, so equal values have equal digests.
 func (r Roots) Hash() Digest {
 	w := &walker{h: fnv.New64a().Sum64(), h2: 7, seen: map[uintptr]int{}}
 	for _, root := range r {
 		name := root.Name
 		w.feed(name)
+		h, h2 := w.h, w.h2
+		if w.fast(root.V, 0) {
+			continue
+		}
+		w.h, w.h2 = h, h2
+		w.feed("reflective")
 		w.walk(reflect.ValueOf(root.V), func() string { return name })
 	}
 	return Digest{w.h, w.h2}
+}
+
+// fast digests plain JSON data; false = not plain JSON data (the caller falls back to the reflective walker).
+func (w *walker) fast(v interface{}, depth int) bool {
+	if depth > 200 {
+		return false
+	}
+	switch x := v.(type) {
+	case nil:
+		w.feed("nil")
+	case bool:
+		if x {
+			w.feed("true")
+		} else {
+			w.feed("false")
+		}
+	case float64:
+		var buf [32]byte
+		w.feed(string(strconv.AppendFloat(buf[:0], x, 'g', -1, 64)))
+	case string:
+		w.feed("s")
+		w.feed(x)
+	case []interface{}:
+		if x == nil {
+			w.feed("nil-slice")
+			return true
+		}
+		n, c := len(x), cap(x)
+		w.feed("[")
+		w.feed(strconv.Itoa(n))
+		full := x
+		if c > n && c-n <= 64 {
+			full = x[:c] // spare capacity is part of the snapshot: a write beyond len is a write
+		}
+		for _, e := range full {
+			if !w.fast(e, depth+1) {
+				return false
+			}
+		}
+		w.feed("]")
+	case map[string]interface{}:
+		if x == nil {
+			w.feed("nil-map")
+			return true
+		}
+		keys := make([]string, 0, len(x))
+		for k := range x {
+			keys = append(keys, k)
+		}
+		sort.Strings(keys)
+		w.feed("{")
+		for _, k := range keys {
+			w.feed(k)
+			if !w.fast(x[k], depth+1) {
+				return false
+			}
+		}
+		w.feed("}")
+	default:
+		return false
+	}
+	return true
 }
 
 // Lines renders the roots as sorted "path = value" leaves.
